@@ -6,7 +6,11 @@
    unless
      - its stream is a FILE* handed in by the caller / stored in a caller-visible object (SHandle),
      - it lies on a path that does not return (followed by abort/exit in the same block),
-     - it is listed below with a reason (one line each). *)
+     - it is listed below with a reason (one line each).
+   Sites of stream SHandlerState do not write: they change which handler is registered (a call of
+   QSlog_set_handler from inside the library, an assignment to a file-scope static of logging.c).
+   After such a site "a handler is installed" need no longer hold, which is the premise of the
+   DefaultBranch exemption; so they count as offending unless they are the host's own entry point. *)
 From Coq Require Import String List NArith Bool.
 From QSX Require Import Gen.Sites.
 Import ListNotations.
@@ -17,11 +21,13 @@ Inductive reason :=
 | CompareOnly        (* the stream is only compared, never written *)
 | TraceOnly          (* guarded by the file-static TRACE flag, which is the constant 0 *)
 | CallerAskedStdout  (* documented: a NULL file name means standard output *)
-| InteractiveOnly.   (* prompt of the interactive line reader / editor *)
+| InteractiveOnly    (* prompt of the interactive line reader / editor *)
+| HostSetsHandler.   (* QSlog_set_handler itself: the registration changes only when the host calls it *)
 
 (* (function without instantiation prefix, callee or <escape>/<compare>, reason) *)
 Definition exempt : list (string * string * reason) := [
   ("QSlogv", "fprintf", DefaultBranch);
+  ("QSlog_set_handler", "<handler-assign>", HostSetsHandler);
   ("EGioClose", "<compare>", CompareOnly);
   ("transferColNamesLowerUpperIntMarker", "<escape>", TraceOnly);
   ("convert_rawlpdata_to_lpdata", "<escape>", TraceOnly);
@@ -77,3 +83,9 @@ Proof.
   apply existsb_exists in H. destruct H as (s & Hs & E). exists s. split; [exact Hs|].
   apply negb_true_iff in E. exact E.
 Qed.
+
+(* the translator sees the handler registration: QSlog_set_handler's own assignments are in the list
+   (if logging.c is rewritten so that none is found, this fails and the check reports it) *)
+Example handler_state_sites_listed :
+  existsb (fun s => match s_stream s with SHandlerState => true | _ => false end) sites = true.
+Proof. vm_compute. reflexivity. Qed.
